@@ -42,7 +42,7 @@ CAT = ['point', 'circle', 'ellipse', 'circleannulus', 'ellipseannulus', 'rotbox'
        'poly_origin', 'circle_origin', 'poly_origin_kw']
 NONREP = ['sky_circle', 'line', 'text', 'rectangleannulus', 'compound']
 INC_PATTERNS = ['absent', 'all_false', 'alt_False_True', 'alt_0_1', 'first_false']
-COMP_PATTERNS = ['absent', 'all', 'partial', 'partial_first', 'partial_desc', 'partial_mixed', 'all_desc', 'from_zero', 'zero_then_absent']
+COMP_PATTERNS = ['absent', 'all', 'partial', 'partial_first', 'partial_desc', 'partial_mixed', 'all_desc', 'from_zero', 'zero_then_absent', 'big']
 
 
 def make(name, include='absent', component=None):
@@ -134,6 +134,8 @@ def _comp_for(pattern, k):
         return k
     if pattern == 'zero_then_absent':
         return 0 if k == 0 else None
+    if pattern == 'big':                # component numbers are integers, not 16-bit integers
+        return 40000 + 30011 * k
     raise ValueError(pattern)
 
 
@@ -174,7 +176,12 @@ def _roundtrip(regs, medium):
             path = os.path.join(d, f'rt_{medium}{ext}')
             if os.path.lexists(path):
                 os.remove(path)
-            if medium == 'file_region' and len(regs) == 1:
+            if medium == 'file_over':
+                # the destination already holds an older region file and is overwritten on request
+                from regions import CirclePixelRegion, PixCoord
+                Regions([CirclePixelRegion(PixCoord(901.0, 902.0), 77.0)]).write(path, format='fits')
+                Regions(regs).write(path, format='fits', overwrite=True)
+            elif medium == 'file_region' and len(regs) == 1:
                 regs[0].write(path, format='fits')
             elif medium == 'file_ext':
                 if len(regs) == 1:
@@ -520,7 +527,7 @@ def read_lattice_cases(tier):
 def list_cases(tier):
     out = []
     incs = ['absent', 'all_false', 'alt_0_1'] if tier == 'quick' else INC_PATTERNS
-    comps = ['absent', 'from_zero', 'partial', 'partial_desc', 'partial_mixed', 'zero_then_absent'] if tier == 'quick' else COMP_PATTERNS
+    comps = ['absent', 'from_zero', 'partial', 'partial_desc', 'partial_mixed', 'zero_then_absent', 'big'] if tier == 'quick' else COMP_PATTERNS
     media = ['memory', 'file', 'file_multi', 'file_ext'] if tier == 'quick' else ['memory', 'file', 'file_region', 'file_multi', 'file_ext']
     maxlen = 2 if tier == 'quick' else 3
     lists = []
@@ -550,6 +557,8 @@ def list_cases(tier):
             for pos in range(L + 1):
                 for kind in NONREP:
                     out.append({'names': list(names), 'inc': 'first_false' if L else 'absent', 'comp': 'absent', 'medium': 'memory', 'insert': [pos, kind]})
+                    if L < 2 and pos == 0:
+                        out.append({'names': list(names), 'inc': 'first_false' if L else 'absent', 'comp': 'absent', 'medium': 'file_over', 'insert': [pos, kind]})
     return out
 
 
